@@ -105,6 +105,17 @@ fn shim_extend_iter%s(v: &mut Vec<StackFrame<'a>>, it: %s)
 { unimplemented!() /* v.extend(it) */ }
 """ % (gen, itty, gen, itty), "glue")
     u.raw("pub uninterp spec fn spec_remap_class<'x>(m: %s, class: Seq<char>) -> Option<&'x str>;\n" % ty, "glue")
+    u.raw("""// C08 for the WHOLE trace: the result relates to the input level by level down the cause chain -- exception present iff it was, remapped or kept;
+// frames exactly remapped_frames; a cause iff there was one, related in the same way
+pub open spec fn typed_rel<'x>(m: %s, t: StackTrace<'x>, r: StackTrace<'x>) -> bool
+    decreases t
+{
+    &&& (r.exception is Some) == (t.exception is Some)
+    &&& (t.exception is Some ==> throwable_ok(spec_remap_class(m, t.exception->0.class@), t.exception->0, r.exception->0))
+    &&& frames_kept(m, t.frames@, r.frames@)
+    &&& match t.cause { Some(tc) => r.cause is Some && typed_rel(m, *tc, *r.cause->0), None => r.cause is None }
+}
+""" % ty, "model (whole-trace relation)")
     u.raw(src.impl_header(IMPL) + "{\n", "glue")
 
     rc = src.impl_fn(IMPL, "remap_class")
@@ -174,8 +185,9 @@ fn shim_extend_iter%s(v: &mut Vec<StackFrame<'a>>, it: %s)
                   spec="ensures throwable_ok(spec_remap_class(*self, t.class@), *t, r)")
         f.closure("||", params="||", ret="r: Throwable<'a>", spec="ensures r == *t")
     f.closure("|c|", params="|c: &Box<StackTrace<'a>>|", ret="r: Box<StackTrace<'a>>",
-              spec="requires depth(**c) < depth(*trace) ensures depth(*r) == depth(**c)")
+              spec="requires depth(**c) < depth(*trace) ensures depth(*r) == depth(**c), typed_rel(*self, **c, *r)")
     f.contract("""    ensures
+        /*@L:result_is_the_typed_remap_of_every_level_of_the_cause_chain:C08*/ typed_rel(*self, *trace, ret),
         /*@L:exception_kept:C08*/ (ret.exception is Some) == (trace.exception is Some),
         /*@L:exception_remapped_or_same:C08*/ trace.exception is Some ==> throwable_ok(spec_remap_class(*self, trace.exception->0.class@), trace.exception->0, ret.exception->0),
         /*@L:frames_kept:C08*/ frames_kept(*self, trace.frames@, ret.frames@),
